@@ -321,6 +321,8 @@ static void run_history (char *line) {
   /* tear the context down; after an error module creation may be half done, in which case
      MIR_finish frees nearly everything and then reports the unfinished module/function: that
      last error is swallowed here */
+  if (failed && setjmp (err_jmp) == 0)
+    MIR_finish_module (ctx); /* a half-built module: MIR_finish would free it and then read its name */
   if (setjmp (err_jmp) == 0) {
     if (failed) /* MIR_link marks functions with item->data = 1 and an error leaves the marks behind;
                    MIR_finish would pass them to free */
